@@ -122,12 +122,19 @@ def r_norm_view(ctx: RuleCtx, col: Collector):
     loops = [n for n in ast.walk(resp.node) if isinstance(n, ast.For) and any(
         isinstance(x, ast.AugAssign) and isinstance(x.op, (ast.Mult, ast.Div)) for x in ast.walk(n))]
     if not loops:
-        col.bad(where_of(resp), resp.rel, line_of(resp.node), "EigenSolve: normalisation loop",
-                "no loop scaling the eigenvectors in place found")
-        return
+        raise AnalysisError("EigenSolve: no loop scaling the eigenvectors in place found")
     lp = loops[0]
     it = norm(lp.iter)
-    full = it in (f"range({wname}.size)", f"range(len({wname}))", f"range({qname}.shape[1])", f"range({qname}.shape[-1])")
+    counts = (f"{wname}.size", f"len({wname})", f"{qname}.shape[1]", f"{qname}.shape[-1]", f"{wname}.shape[0]")
+    full = it in tuple(f"range({c_})" for c_ in counts)
+    if not full and isinstance(lp.iter, ast.Call) and norm(lp.iter.func) == "range" and len(lp.iter.args) == 1 and \
+            isinstance(lp.iter.args[0], ast.Name):
+        # the count is held in a local: every definition of it is the number of computed modes
+        nm = lp.iter.args[0].id
+        defs = [d.value for d in ast.walk(resp.node) if isinstance(d, ast.Assign) and len(d.targets) == 1
+                and isinstance(d.targets[0], ast.Name) and d.targets[0].id == nm]
+        others = [d for d in ast.walk(resp.node) if isinstance(d, ast.Name) and d.id == nm and isinstance(d.ctx, ast.Store)]
+        full = bool(defs) and len(others) == len(defs) and all(norm(d) in counts for d in defs)
     if full:
         col.ok(where_of(resp), resp.rel, line_of(lp), "normalisation loop ranges over all modes", it)
     else:
